@@ -863,7 +863,7 @@ fn main() {
             // few-bit dyadic weights and measurements keep the exact rationals of the q- histories small
             const QW: [(f32, f32); 4] = [(1.0 / 16.0, 1.0 / 128.0), (1.0 / 32.0, 1.0 / 64.0), (1.0 / 8.0, 1.0 / 8.0), (1.0 / 16.0, 1.0 / 256.0)];
             // vectors assembled from points with heterogeneous histories
-            for _ in 0..(a.n / 2).max(2) {
+            for _ in 0..(a.n / 4).max(4) {
                 let s = gen_hvec(&mut rng, id);
                 run_spec(&s, &mut out);
                 id += 1;
